@@ -663,6 +663,10 @@ fn lex_table(variant: usize) -> Vec<(&'static str, Vec<&'static str>)> {
         3 => vec![("a", vec!["a", "A"]), ("b+", vec!["b", "BB", "bBb"]), ("c", vec!["c"]), ("\"[^\"]*\"", vec!["\"\"", "\"q r\""]), ("\u{e9}", vec!["\u{e9}"])],
         // anchors with `!multi_line`: `$` and `^` then refer to the whole input, not to its lines
         4 => vec![("[a-z]+$", vec!["x", "foo"]), ("[a-z]+", vec!["y", "bar"]), ("[0-9]+", vec!["1", "23"]), (";", vec![";"]), ("^#", vec!["#"])],
+        // start states: `<` enters the inclusive state TAG, `>` leaves it; inside TAG a word matches the
+        // TAG-only rule and the unrestricted rule equally long — the one listed first wins (rendered by hand
+        // in `render_lexer`)
+        6 => vec![("[a-z]+", vec!["b", "em"]), ("[a-z]+", vec!["x", "word"]), ("<", vec!["<"]), (">", vec![">"]), ("[0-9]+", vec!["1", "42"])],
         // `.` with `!dot_matches_new_line`: the skipped `%.*` rule (below) ends at the end of the line
         _ => vec![("a", vec!["a"]), ("b", vec!["b"]), ("c.?", vec!["c", "cx"]), ("d", vec!["d"]), ("e", vec!["e"])],
     }
@@ -683,6 +687,18 @@ fn render_lexer(variant: usize, ntoks: usize, comments: bool) -> String {
         s.push_str("%x COMMENT\n");
     }
     s.push_str("%%\n");
+    if variant == 6 {
+        // (comments never combine with this variant: the caller passes `comments = false`)
+        let mut s = String::from("%s TAG\n%%\n");
+        let line = |t: usize, text: &str| if t < ntoks { text.replace("@", &format!("\"t{}\"", t)) } else { text.replace("@", ";") };
+        s.push_str(&line(2, "\\< <TAG>@\n"));
+        s.push_str(&line(3, "\\> <INITIAL>@\n"));
+        s.push_str(&line(0, "<TAG>[a-z]+ @\n"));
+        s.push_str(&line(1, "[a-z]+ @\n"));
+        s.push_str(&line(4, "[0-9]+ @\n"));
+        s.push_str("[ \\t\\n]+ ;\n");
+        return s;
+    }
     let tab = lex_table(variant);
     // a named rule whose token the grammar does not know (a reserved word ahead of the other rules):
     // both pipelines must stop with a lexing error where it matches
@@ -749,14 +765,30 @@ fn render_yacc(g: &AGrammar, yk: &str, param: bool, tags: &[Vec<String>], rng: &
         s.push_str(&format!("%avoid_insert {}\n", ts.join(" ")));
     }
     s.push_str("%%\n");
+    // a rule may be defined in several places: a third of the rules with two or more alternatives keep
+    // only their first alternative where they stand, the others follow after all other rules (production
+    // numbers are then not grouped by rule, and generated tables indexed by production must cope)
+    let mut parts: Vec<(usize, usize, usize)> = Vec::new(); // (rule, first alternative, one past the last)
+    let mut deferred: Vec<(usize, usize, usize)> = Vec::new();
     for (i, r) in g.rules.iter().enumerate() {
+        if r.len() >= 2 && rng.chance(1, 3) {
+            parts.push((i, 0, 1));
+            deferred.push((i, 1, r.len()));
+        } else {
+            parts.push((i, 0, r.len()));
+        }
+    }
+    parts.extend(deferred);
+    for (i, from, to) in parts {
+        let r = &g.rules[i];
         if yk == "grmtools" {
             s.push_str(&format!("R{} -> T:\n", i));
         } else {
             s.push_str(&format!("R{}:\n", i));
         }
-        for (j, p) in r.iter().enumerate() {
-            s.push_str(if j == 0 { "    " } else { "  | " });
+        for j in from..to {
+            let p = &r[j];
+            s.push_str(if j == from { "    " } else { "  | " });
             for x in &p.syms {
                 match x {
                     S::T(t) => s.push_str(&format!("'t{}' ", t)),
@@ -832,6 +864,10 @@ fn render_input(toks: &[usize], variant: usize, comments: bool, rng: &mut Rng) -
         }
         if (comments || variant == 1) && rng.chance(1, 12) {
             s.push_str("zz ");
+        }
+        if variant == 6 && rng.chance(1, 3) {
+            // enter / leave the TAG state (also when `<` and `>` are not tokens of the grammar)
+            s.push_str(*rng.pick(&["< ", "< ", "> "]));
         }
         if variant == 5 && rng.chance(1, 5) {
             // a to-end-of-line comment (or, should `.` match a newline, a to-end-of-input one)
@@ -919,7 +955,9 @@ fn candidate(seed: u64, idx: usize, attempt: u64, thorough: bool) -> Option<Pair
         // every 8th pair is the expression grammar `E: E t0 T | T; T: T t1 F | F; F: t2 E t3 | t4` with
         // %avoid_insert t1 t4 (an operator and the operand): errors with several equally cheap repairs, some of which insert
         // the avoided token, are what %avoid_insert exists for
-        let fixed = idx % 8 == 5;
+        // (pair 4 of every eight runs the same grammar with user actions and recovery on: the only repair of
+        // `( )` inserts an avoided token, which must reach the action as `Err`)
+        let fixed = idx % 8 == 5 || idx % 8 == 4;
         if fixed {
             use grammar::AProd;
             let p = |syms: Vec<S>| AProd { syms, prec: None };
@@ -950,8 +988,8 @@ fn candidate(seed: u64, idx: usize, attempt: u64, thorough: bool) -> Option<Pair
         }
         let tags: Vec<Vec<String>> = g.rules.iter().map(|r| r.iter().map(|_| tag_text(&mut rng)).collect()).collect();
         let y = render_yacc(&g, st.yk, st.param, &tags, &mut rng);
-        let variant = if idx < 6 { [0, 4, 5, 3, 1, 2][idx] } else { rng.below(6) };
-        let comments = rng.chance(1, 3);
+        let variant = if idx < 7 { [0, 4, 5, 3, 1, 2, 6][idx] } else { rng.below(7) };
+        let comments = rng.chance(1, 3) && variant != 6;
         let l = render_lexer(variant, g.ntoks, comments);
         // both pipelines must accept the pair, and the grammar should have sentences
         let yk = yk_of(st.yk);
